@@ -71,3 +71,56 @@ func (tm *Timer) Reset(d time.Duration) bool {
 
 // SleepFor is the replacement of time.Sleep.
 func SleepFor(d time.Duration) { Sleep(int64(d)) }
+
+// Ticker is the replacement of time.Ticker: a periodic alarm that performs a
+// non-blocking send on C (capacity 1), dropping ticks for slow receivers.
+type Ticker struct {
+	C *Chan[time.Time]
+	m Meta
+	a *alarm
+	d time.Duration
+}
+
+// NewTicker is the replacement of time.NewTicker.
+func NewTicker(d time.Duration) *Ticker {
+	if d <= 0 {
+		panic("non-positive interval for NewTicker")
+	}
+	t := current()
+	tk := &Ticker{C: NewChan[time.Time](1), d: d}
+	tk.m.Bind(t)
+	tk.arm(t)
+	return tk
+}
+
+func (tk *Ticker) arm(t *Thread) {
+	s := t.s
+	tk.a = s.addAlarm(int64(tk.d), func() {
+		tk.C.TrySendInternal(t, Epoch.Add(time.Duration(s.clock)))
+		tk.arm(t)
+	})
+}
+
+// Stop is the replacement of (*time.Ticker).Stop.
+func (tk *Ticker) Stop() {
+	t := current()
+	id, fresh := tk.m.Bind(t)
+	if fresh {
+		tk.a = nil
+	}
+	t.point("ticker.stop", id, nil)
+	t.s.cancelAlarm(tk.a)
+}
+
+// Reset is the replacement of (*time.Ticker).Reset.
+func (tk *Ticker) Reset(d time.Duration) {
+	t := current()
+	id, fresh := tk.m.Bind(t)
+	if fresh {
+		tk.a = nil
+	}
+	t.point("ticker.reset", id, nil)
+	t.s.cancelAlarm(tk.a)
+	tk.d = d
+	tk.arm(t)
+}
